@@ -305,6 +305,9 @@ func loadRec(path string) *rt.Rec {
 	return r
 }
 
+// maxWatchdogCases: cases of one run that may exceed the watchdog before the run is abandoned
+const maxWatchdogCases = 16
+
 func runCoordinator(args []string) int {
 	fs := flag.NewFlagSet("run", flag.ExitOnError)
 	prop := fs.String("prop", "", "")
@@ -448,6 +451,30 @@ func runCoordinator(args []string) int {
 					}
 					solos = append(solos, soloJob{culprit})
 					w.skips = append(w.skips, culprit)
+					if len(solos) >= maxWatchdogCases {
+						// a tree on which case after case does not end (an endless loop in a plan) would
+						// cost a watchdog period per case: the run is abandoned, the cases seen so far are
+						// re-run alone below (for C06 that decides), the rest is reported as not run
+						for _, o := range ws {
+							if o.finished {
+								continue
+							}
+							if o != w {
+								o.cmd.Process.Kill()
+								<-o.done
+								if r := loadRec(o.base(dir) + ".result.json"); r != nil {
+									o.partials = append(o.partials, r)
+								}
+							}
+							o.finished = true
+						}
+						remaining = 0
+						inconclusive = append(inconclusive, fmt.Sprintf("run abandoned: %d cases exceeded the watchdog, the remaining cases were not run", len(solos)))
+						if *prop != "C06" {
+							solos = nil // a confirmed hang is C06's finding; here it could only repeat "inconclusive"
+						}
+						break
+					}
 					w.gen++
 					next := w.shard
 					if upto >= 0 {
